@@ -108,8 +108,18 @@ func r(m dsl.Matcher) {
 		cfgs = append(cfgs, 1000, 1<<40)
 	}
 	ops, impl, specOps, inputs = nil, nil, nil, nil
-	for _, cfg := range cfgs {
-		reports, pk, frame, err := hx.Run(e, t, hx.RunOpts{TruncateLen: cfg})
+	// every limit twice: with a fresh RunContext and no state, and the way a driver does that keeps ONE RunContext and ONE
+	// RunnerState for all its runs and only changes TruncateLen in between (the effective limit is per run)
+	sharedCtx := &ruleguard.RunContext{}
+	sharedState := ruleguard.NewRunnerState(e)
+	for pass := 0; pass < 2*len(cfgs); pass++ {
+		cfg := cfgs[pass%len(cfgs)]
+		opts := hx.RunOpts{TruncateLen: cfg}
+		if pass >= len(cfgs) {
+			opts.Ctx, opts.State = sharedCtx, sharedState
+			res.Dist("e2e:one-RunContext-and-state-for-all-limits")
+		}
+		reports, pk, frame, err := hx.Run(e, t, opts)
 		if err != nil {
 			return err
 		}
